@@ -29,6 +29,10 @@ fn lookup(id: &str) -> Option<(RunFn, ReplayFn)>
     {
         "C01" => Some((props::c01::run, props::c01::replay)),
         "C12" => Some((props::c12::run, props::c12::replay)),
+        "C13" => Some((props::c13::run, props::c13::replay)),
+        "C14" => Some((props::c14::run, props::c14::replay)),
+        "C15" => Some((props::c15::run, props::c15::replay)),
+        "C16" => Some((props::c16::run, props::c16::replay)),
         _ => None,
     }
 }
@@ -106,7 +110,12 @@ fn verif_main(args: &[String]) -> i32
             Err(e) => { eprintln!("cannot parse {}: {}", path, e); return 2; }
         };
         let case = v.get("case").cloned().unwrap_or(v.clone());
-        return match rep(&ctx, &case)
+        let outcome = match sched::catch_quiet(|| rep(&ctx, &case))
+        {
+            Ok(r) => r,
+            Err(m) => Err(format!("panic in the code under test: {}", m)),
+        };
+        return match outcome
         {
             Ok(()) => { println!("replay {}: property {} held", path, id); 0 }
             Err(m) =>
